@@ -26,6 +26,7 @@ DOC = {
         "the equal-area penalty term against its documented formula."
     ),
     "rules": {
+        "C02-R9": "evaluation-level accumulators are reset once per evaluation, never once per dataset: the penalty vector holds the equal-area penalties of all datasets (shared with C10-R5)",
         "C02-R8": "linked groups: the aligned axis is built from the aligned points of every dataset (refusal before merge, merge of the aligned - not the original - points) and data, indices, groups, weights, matrices and scales are stacked in one order (shared with C09-R3 and C09-R4)",
         "C02-R7": "constructors of the data/matrix/estimation providers read no parameter-valued attribute (dataset scale, megacomplex parameters, group parameters): such values change on every evaluation and are read where they are used",
         "C02-R6": "the data provider works on its own copy of the data and weights: in-place weighting never reaches the caller's arrays, so a dataset used twice is weighted once each time (shared with C10-R3)",
@@ -477,9 +478,16 @@ def r8(ctx) -> None:
     c09.r4(ctx, rule="C02-R8")
 
 
+def r9(ctx) -> None:
+    """The objective contains every group's and dataset's penalties exactly once (accumulator discipline shared with C10-R5)."""
+    from glint.rules import c10
+
+    c10.r5(ctx, rule="C02-R9")
+
+
 def check(ctx) -> None:
     for g in check.groups:
         g(ctx)
 
 
-check.groups = [r1, r2, r3, r4, r5, r6, r7, r8]
+check.groups = [r1, r2, r3, r4, r5, r6, r7, r8, r9]
